@@ -20,6 +20,13 @@ Proof. exact fpcmp_exact_lemma. Qed.
 Theorem int2fp_trunc : forall a, word a -> int2fp_spec a (fst (int2fp a)) (snd (int2fp a)).
 Proof. exact int2fp_trunc_lemma. Qed.
 
+(* the specification function keeps the 24 leading bits of n and clears the rest (so the spec above is not vacuous) *)
+Theorem trunc_sig24_meaning : forall n, 0 < n ->
+  let sh := Z.max 0 (Z.log2 n - 23) in let q := n / 2 ^ sh in
+  trunc_sig24 n = q * 2 ^ sh /\ 0 < q < 2 ^ 24 /\ (0 < sh -> 2 ^ 23 <= q) /\
+  trunc_sig24 n <= n < trunc_sig24 n + 2 ^ sh.
+Proof. exact trunc_sig24_spec. Qed.
+
 (* ---- float -> integer, |v| < 2^31: the two's complement result is the value truncated toward zero; not invalid, not denorm *)
 Theorem fp2int_trunc : forall a r pl dn inv, normal a -> fp2int a = (r, pl, dn, inv) -> fp2int_in_range a ->
   word r /\ sgn 32 r = fp2int_value a /\ inv = false /\ dn = false.
@@ -101,6 +108,7 @@ Proof. unfold normal, word, add_exact_normal, normal_range. vm_compute. intuitio
 Print Assumptions Qval_sval.
 Print Assumptions fpcmp_exact.
 Print Assumptions int2fp_trunc.
+Print Assumptions trunc_sig24_meaning.
 Print Assumptions fp2int_trunc.
 Print Assumptions fp2int_invalid.
 Print Assumptions fp2int_plost_partial.
